@@ -238,3 +238,215 @@ pub fn sweep_log10() -> i32 {
     println!("DONE checked={} mismatches={}", checked, mism);
     0
 }
+
+// ---------------------------------------------------------------------
+// Decimal -> f64 / f32 against std's correctly rounded decimal-string parser
+
+fn dec_text(c: i128, s: u8) -> String {
+    // built without fpdec's Display: sign, integer digits, point, fraction digits
+    let neg = c < 0;
+    let digits = c.unsigned_abs().to_string();
+    let s = s as usize;
+    let mut out = String::new();
+    if neg {
+        out.push('-');
+    }
+    if s == 0 {
+        out.push_str(&digits);
+    } else if digits.len() > s {
+        out.push_str(&digits[..digits.len() - s]);
+        out.push('.');
+        out.push_str(&digits[digits.len() - s..]);
+    } else {
+        out.push_str("0.");
+        for _ in 0..(s - digits.len()) {
+            out.push('0');
+        }
+        out.push_str(&digits);
+    }
+    out
+}
+
+/// `--sweep-tof <n> <seed> <nthreads>`: n pseudo-random + structured Decimals per thread; f64::from(d) and
+/// f32::from(d) must equal what std's (correctly rounded) parser makes of the decimal text.
+pub fn sweep_tof(args: &[String]) -> i32 {
+    let n: u64 = args[0].parse().expect("n");
+    let seed: u64 = args[1].parse().expect("seed");
+    let nthreads: u64 = args[2].parse().expect("nthreads");
+    let mut handles = Vec::new();
+    for t in 0..nthreads {
+        handles.push(std::thread::spawn(move || {
+            let mut s: u128 = ((seed as u128) << 64 | 0x9E3779B97F4A7C15) ^ ((t as u128 + 1) * 0xda942042e4dd58b5);
+            let mut next = move || {
+                s = s.wrapping_mul(0x2360ED051FC65DA44385DF649FCCF645).wrapping_add(0x14057B7EF767814F);
+                s ^ (s >> 61)
+            };
+            let mut checked = 0_u64;
+            let mut mism = 0_u64;
+            let mut lines: Vec<String> = Vec::new();
+            for i in 0..n {
+                let r = next();
+                let bits = 1 + (r >> 120) as u32 % 127;
+                let mut c = (next() >> (128 - bits)) as i128;
+                // structured coefficients every few cases: few significant bits, near powers of two
+                match i % 5 {
+                    1 => c = ((next() >> 75) as i128) << ((r >> 8) as u32 % 70),
+                    2 => c = (1_i128 << ((r >> 8) as u32 % 126)) + ((r >> 20) as i128 % 5) - 2,
+                    _ => {}
+                }
+                if c > i128::MAX - 1 || c < -(i128::MAX - 1) {
+                    c = i128::MAX;
+                }
+                if r & 1 == 1 {
+                    c = -c;
+                }
+                let sc = ((r >> 3) % 19) as u8;
+                let d = Decimal::new_raw(c, sc);
+                let txt = dec_text(c, sc);
+                let want64: f64 = txt.parse().expect("std parse f64");
+                let want32: f32 = txt.parse().expect("std parse f32");
+                let got64 = f64::from(d);
+                let got32 = f32::from(d);
+                checked += 2;
+                // zero: the property wants +0.0 for every zero (std gives -0.0 for "-0")
+                let ok64 = if c == 0 { got64.to_bits() == 0 } else { got64.to_bits() == want64.to_bits() };
+                let ok32 = if c == 0 { got32.to_bits() == 0 } else { got32.to_bits() == want32.to_bits() };
+                if !ok64 {
+                    mism += 1;
+                    if lines.len() < 20 {
+                        lines.push(format!("MISMATCH tof64 D{}:{} got {} want {}", c, sc, got64.to_bits(), want64.to_bits()));
+                    }
+                }
+                if !ok32 {
+                    mism += 1;
+                    if lines.len() < 20 {
+                        lines.push(format!("MISMATCH tof32 D{}:{} got {} want {}", c, sc, got32.to_bits(), want32.to_bits()));
+                    }
+                }
+            }
+            (checked, mism, lines)
+        }));
+    }
+    let (mut checked, mut mism) = (0_u64, 0_u64);
+    for h in handles {
+        let (c, m, lines) = h.join().expect("sweep thread panicked");
+        checked += c;
+        mism += m;
+        for l in lines {
+            println!("{}", l);
+        }
+    }
+    println!("DONE checked={} mismatches={}", checked, mism);
+    0
+}
+
+// ---------------------------------------------------------------------
+// f64 -> Decimal on a structured grid, exact u128 reference
+
+fn ref_f64(bits: u64) -> Result<(i128, u8), &'static str> {
+    let sign: i128 = if bits >> 63 == 1 { -1 } else { 1 };
+    let be = ((bits >> 52) & 0x7ff) as i32;
+    let frac = (bits & 0xfffffffffffff) as u128;
+    if be == 0x7ff {
+        return Err(if frac == 0 { "InfiniteValue" } else { "NotANumber" });
+    }
+    let (m, e) = if be == 0 { (frac, -1074) } else { (frac | 0x10000000000000, be - 1075) };
+    if m == 0 {
+        return Ok((0, 0));
+    }
+    if e >= 0 {
+        let nbits = 128 - m.leading_zeros() as i32 + e;
+        if nbits > 127 {
+            return Err("InternalOverflow");
+        }
+        return Ok((sign * ((m << e) as i128), 0));
+    }
+    let k = (-e) as u32;
+    // m * 10^18 < 2^53 * 2^60 = 2^113
+    let num = m * 1_000_000_000_000_000_000_u128;
+    let (mut q, rem_is_zero, cmp_half) = if k >= 128 {
+        (0_u128, false, -1)
+    } else {
+        let q = num >> k;
+        let rem = num & ((1_u128 << k) - 1);
+        let half = 1_u128 << (k - 1);
+        (q, rem == 0, if rem < half { -1 } else if rem == half { 0 } else { 1 })
+    };
+    if !rem_is_zero && (cmp_half > 0 || (cmp_half == 0 && q & 1 == 1)) {
+        q += 1;
+    }
+    if q == 0 {
+        return Ok((0, 0));
+    }
+    let mut scale = 18_u8;
+    while scale > 0 && q % 10 == 0 {
+        q /= 10;
+        scale -= 1;
+    }
+    Ok((sign * q as i128, scale))
+}
+
+/// `--sweep-f64-grid <topbits> <nthreads>`: every f64 whose 52-bit fraction consists of `topbits` leading bits
+/// (all patterns) followed by one of {000.., 000..1, 100.., 111..}, for every exponent and both signs.
+pub fn sweep_f64_grid(args: &[String]) -> i32 {
+    let topbits: u32 = args[0].parse().expect("topbits");
+    let nthreads: u64 = args[1].parse().expect("nthreads");
+    let mut handles = Vec::new();
+    for t in 0..nthreads {
+        handles.push(std::thread::spawn(move || {
+            let mut checked = 0_u64;
+            let mut mism = 0_u64;
+            let mut lines: Vec<String> = Vec::new();
+            let rest = 52 - topbits;
+            let tails: [u64; 4] = [0, 1, 1 << (rest - 1), (1 << rest) - 1];
+            let mut be = t;
+            while be < 0x800 {
+                for top in 0..(1_u64 << topbits) {
+                    for tail in tails {
+                        for sign in 0..2_u64 {
+                            let bits = (sign << 63) | (be << 52) | (top << rest) | tail;
+                            let f = f64::from_bits(bits);
+                            checked += 1;
+                            let got = match std::panic::catch_unwind(|| Decimal::try_from(f)) {
+                                Ok(g) => g,
+                                Err(_) => {
+                                    mism += 1;
+                                    if lines.len() < 20 {
+                                        lines.push(format!("MISMATCH fromf64 {} got P", bits));
+                                    }
+                                    continue;
+                                }
+                            };
+                            let want = ref_f64(bits);
+                            let same = match (&got, &want) {
+                                (Ok(d), Ok((cf, s))) => d.coefficient() == *cf && d.n_frac_digits() == *s,
+                                (Err(e), Err(k)) => format!("{:?}", e) == *k,
+                                _ => false,
+                            };
+                            // -2^127 is don't-care
+                            if !same && bits != 0xC7E0_0000_0000_0000 {
+                                mism += 1;
+                                if lines.len() < 20 {
+                                    lines.push(format!("MISMATCH fromf64 {} got {} want {}", bits, fmt_got(&got), fmt_want(&want)));
+                                }
+                            }
+                        }
+                    }
+                }
+                be += nthreads;
+            }
+            (checked, mism, lines)
+        }));
+    }
+    let (mut checked, mut mism) = (0_u64, 0_u64);
+    for h in handles {
+        let (c, m, lines) = h.join().expect("sweep thread panicked");
+        checked += c;
+        mism += m;
+        for l in lines {
+            println!("{}", l);
+        }
+    }
+    println!("DONE checked={} mismatches={}", checked, mism);
+    0
+}
